@@ -1,4 +1,5 @@
 import BpModel.Model.Schema
+import BpModel.Model.Expr
 /-!
 # L6 Front — the documented acceptance rules and name resolution, as an executable reference
 
@@ -34,6 +35,7 @@ inductive CVal where
 inductive CExpr where
   | lit (v : CVal)
   | ref (path : List String)
+  | expr (e : Expr.E)            -- a calculation expression; names in it are dotted paths joined by `.`
   deriving Repr, Inhabited
 
 inductive Item where
@@ -44,6 +46,9 @@ inductive Item where
   | field (line : Nat) (name : String) (num : Nat) (ty : TyE)
   | option (line : Nat) (name : String) (v : CExpr)
   | import_ (line : Nat) (asName : Option String) (file : String)
+  /-- text level only: reading stopped here (syntax / lexical error, misplaced or missing `proto`); everything before
+  it has been read and is checked first, nothing after it exists -/
+  | stop (rule : String) (line : Nat)
   deriving Repr, Inhabited
 
 structure File where
@@ -127,15 +132,22 @@ def elabTy (c : Ctx) (line : Nat) : TyE → Except Diag Ty
     | some (.enum _ n vs _) => .ok (.enum n vs)
     | some (.msg _ t _) => .ok t
     | some _ => err c "not-a-type" line
-  | .array e cap ext => do
-    if ext && c.traditional then err c "extensible-in-traditional-mode" line else
-    let n ← evalCap c line cap
-    if ¬ (1 ≤ n ∧ n ≤ 65535) then err c "invalid-array-capacity" line else
+  | .array e cap ext =>
+    -- in reading order: element type, capacity reference, extensible mark, then the array node validates itself
     match e with
     | .array _ _ _ => err c "array-of-array" line
-    | _ =>
+    | _ => do
       let t ← elabTy c line e
+      let n ← evalCap c line cap
+      if ext && c.traditional then err c "extensible-in-traditional-mode" line else
+      if ¬ (1 ≤ n ∧ n ≤ 65535) then err c "invalid-array-capacity" line else
       .ok (.array ext n t)
+
+/-- constants referenced inside a calculation expression must be integer constants -/
+def exprEnv (c : Ctx) (name : String) : Option Int :=
+  match resolve c.stack (name.splitOn ".") with
+  | some (.const (.int v)) => some v
+  | _ => none
 
 def evalConst (c : Ctx) (line : Nat) : CExpr → Except Diag CVal
   | .lit v => .ok v
@@ -144,6 +156,15 @@ def evalConst (c : Ctx) (line : Nat) : CExpr → Except Diag CVal
     | none => err c "undefined-constant" line
     | some (.const v) => .ok v
     | some _ => err c "not-a-constant" line
+  | .expr e =>
+    match Expr.eval (exprEnv c) e with
+    | .ok v => .ok (.int v)
+    | .error .divZero => err c "division-by-zero" line
+    | .error (.unbound name) =>
+      match resolve c.stack (name.splitOn ".") with
+      | none => err c "undefined-constant" line
+      | some (.const _) => err c "non-integer-in-expression" line
+      | some _ => err c "not-a-constant" line
 
 inductive Kind | proto | msg | enum deriving DecidableEq
 
@@ -191,29 +212,35 @@ def checkItems (imp : Ctx → Nat → String → Except Diag Ent) (c : Ctx) (k :
     let st' ← checkItem imp { c with stack := st.members :: c.stack } k it st
     checkItems imp c k rest st'
 def checkItem (imp : Ctx → Nat → String → Except Diag Ent) (c : Ctx) (k : Kind) : Item → St → Except Diag St
-  | .const line name v, st =>
-    if k ≠ .proto then err c (if k = .msg then "const-in-message" else "const-in-enum") line else do
+  -- A statement in the wrong kind of scope is reported when the statement is complete: what it refers
+  -- to has been resolved (and, for definitions with a body, the body has been read) by then, so an
+  -- error in there comes first.
+  | .const line name v, st => do
     let cv ← evalConst c line v
+    if k ≠ .proto then err c (if k = .msg then "const-in-message" else "const-in-enum") line else
     push c line st name (.const cv)
   | .alias line name ty, st =>
-    if k ≠ .proto then err c (if k = .msg then "alias-in-message" else "alias-in-enum") line else
     if ¬ isAliasable ty then
       -- a reference: undefined names are reported as such, defined ones may not be aliased
       match ty with
-      | .ref p => if (resolve c.stack p).isNone then err c "undefined-type" line else err c "invalid-aliased-type" line
+      | .ref p =>
+        match resolve c.stack p with
+        | none => err c "undefined-type" line
+        | some (.alias _) | some (.enum _ _ _ _) | some (.msg _ _ _) => err c "invalid-aliased-type" line
+        | some _ => err c "not-a-type" line
       | _ => err c "invalid-aliased-type" line
     else do
     let t ← elabTy c line ty
+    if k ≠ .proto then err c (if k = .msg then "alias-in-message" else "alias-in-enum") line else
     push c line st name (.alias t)
   | .enum line name nbits members extra, st =>
-    if k = .enum then err c "enum-in-enum" line else
     if ¬ (1 ≤ nbits ∧ nbits ≤ 64) then err c "invalid-uint-width" line else do
     let r ← checkEnumMembers c nbits members [] []
     -- nothing but members may be declared inside an enum
     let _ ← checkItems imp c .enum extra {}
+    if k = .enum then err c "enum-in-enum" line else
     push c line { st with nextId := st.nextId + 1 } name (.enum (1000 * c.stack.length + st.nextId) nbits r.2 r.1)
   | .msg line name ext items, st =>
-    if k = .enum then err c "message-in-enum" line else
     if ext && c.traditional then err c "extensible-in-traditional-mode" line else do
     let inner ← checkItems imp c .msg items { nextId := 0 }
     -- post-freeze validation of the message
@@ -221,28 +248,39 @@ def checkItem (imp : Ctx → Nat → String → Except Diag Ent) (c : Ctx) (k : 
     if nb > 65535 then err c "message-size-overflow" line else
     match inner.maxBytes with
     | some mb => if mb > 0 ∧ (nb + 7) / 8 > mb then err c "message-size-overflow" line else
+        if k = .enum then err c "message-in-enum" line else
         push c line { st with nextId := st.nextId + 1 } name
           (.msg (1000 * c.stack.length + st.nextId) (.msg ext inner.fields) inner.members)
     | none =>
+      if k = .enum then err c "message-in-enum" line else
       push c line { st with nextId := st.nextId + 1 } name
         (.msg (1000 * c.stack.length + st.nextId) (.msg ext inner.fields) inner.members)
-  | .field line name num ty, st =>
-    if k ≠ .msg then err c (if k = .enum then "field-in-enum" else "field-at-top-level") line else do
+  | .field line name num ty, st => do
     let t ← elabTy c line ty
     if ¬ (1 ≤ num ∧ num ≤ 255) then err c "invalid-field-number" line else
-    if (st.fields.map (·.1)).contains num then err c "duplicate-field-number" line else
+    if k ≠ .msg then
+      -- the field is pushed into the enclosing scope before the placement is rejected
+      let _ ← push c line st name (.field t)
+      err c (if k = .enum then "field-in-enum" else "field-at-top-level") line
+    else
+    -- `push_member`: the name first, then the field number
     let st' ← push c line st name (.field t)
+    if (st.fields.map (·.1)).contains num then err c "duplicate-field-number" line else
     .ok { st' with fields := st'.fields ++ [(num, t)] }
-  | .option line name v, st =>
-    if k = .enum then err c "option-in-enum" line else do
+  | .option line name v, st => do
     let cv ← evalConst c line v
+    if k = .enum then err c "option-in-enum" line else
     checkOption c k line name cv
     let st' ← push c line st name .option
     match name, cv with
     | "max_bytes", .int x => .ok { st' with maxBytes := some x.toNat }
     | _, _ => .ok st'
   | .import_ line asName file, st =>
-    if k ≠ .proto then err c (if k = .msg then "import-in-message" else "import-in-enum") line else do
+    if k ≠ .proto then do
+      -- the imported file is read before the placement is rejected
+      let _ ← imp c line file
+      err c (if k = .msg then "import-in-message" else "import-in-enum") line
+    else do
     let e ← imp c line file
     -- the same file twice in one proto
     if st.members.any (fun m => match m.2 with | .proto f _ _ => f == file | _ => false) then err c "duplicate-import" line else
@@ -251,6 +289,7 @@ def checkItem (imp : Ctx → Nat → String → Except Diag Ent) (c : Ctx) (k : 
       | none, .proto _ pn _ => pn
       | none, _ => ""
     push c line st nm e
+  | .stop rule line, _ => err c rule line
 end
 
 /-- one file, and through `imp` the files it imports (fuel bounds the import depth; the cyclic check
